@@ -5,11 +5,15 @@
    All theorems are stated for EVERY call tree (any depth, any fan-out, reverted frames anywhere), every bridge
    address, every claim, and every behaviour of the ABI layer: the type of frame inputs, `selector` (first four
    bytes), `unpack` (ABI unpacking per contract generation) and `hash2` (Keccak of the two exit roots) are
-   universally quantified.  What go-ethereum's ABI unpacking returns on real bytes is covered by the
-   correspondence only (partial there; see props/c20.py). *)
+   universally quantified.  The second part instantiates that layer on RAW CALLDATA BYTES (Model/Abi.v: a byte-level
+   transcription of go-ethereum's Arguments.Unpack for the argument types of the four claim methods, followed by the
+   `data[k].(T)` reads of decode{Etrog,PreEtrog}Calldata) and proves that it inverts the canonical ABI encoding; the
+   correspondence runs the model on the very bytes the real code received. *)
+From Coq Require Import String.
 From Coq Require Import NArith List Bool.
-From Verif Require Import Model.FindCall Proofs.FindCallProofs Model.C20Cases Gen.SourceFacts.
+From Verif Require Import Base.Bytes Model.FindCall Proofs.FindCallProofs Model.Abi Proofs.AbiProofs Model.C20Cases Gen.SourceFacts.
 Import ListNotations.
+Open Scope list_scope.
 Open Scope N_scope.
 
 (* source-fact obligations: the selectors the model dispatches on are the ones in bridgesync/downloader.go *)
@@ -19,6 +23,22 @@ Example C20_src_selectors_are_model :
 Proof. repeat split; reflexivity. Qed.
 Example C20_src_method_id_length : src_method_id_length = Some 4.
 Proof. reflexivity. Qed.
+
+(* the argument types the model decodes are those of the bindings bridgesync/downloader.go imports (ABI JSON of the pinned
+   cdk-contracts-tooling version), for claimAsset and claimMessage of both generations *)
+Definition aty_name (t : aty) : String.string :=
+  match t with TProof => "bytes32[32]" | TU256 => "uint256" | TB32 => "bytes32" | TU32 => "uint32" | TAddr => "address" | TBytes => "bytes" end%string.
+Example C20_src_abi_types_are_model :
+  src_c20_abi_etrog_claim_asset = map aty_name etrog_tys /\ src_c20_abi_etrog_claim_message = map aty_name etrog_tys /\
+  src_c20_abi_pre_claim_asset = map aty_name pre_tys /\ src_c20_abi_pre_claim_message = map aty_name pre_tys.
+Proof. repeat split; reflexivity. Qed.
+(* the slots decode{Etrog,PreEtrog}Calldata read and the Go types they assert: etrog_fields / pre_fields read the same slots *)
+Example C20_src_data_reads :
+  src_c20_etrog_data_reads = ["2:*big.Int"; "0:[types.DefaultHeight][common.HashLength]byte"; "1:[types.DefaultHeight][common.HashLength]byte";
+                              "3:[common.HashLength]byte"; "4:[common.HashLength]byte"; "7:uint32"; "10:[]byte"]%string /\
+  src_c20_pre_data_reads = ["1:uint32"; "0:[types.DefaultHeight][common.HashLength]byte"; "2:[common.HashLength]byte";
+                            "3:[common.HashLength]byte"; "6:uint32"; "9:[]byte"]%string.
+Proof. split; reflexivity. Qed.
 
 Section Statements.
   Variable input : Type.
@@ -107,6 +127,80 @@ Section Statements.
   Proof. exact (in_all_calls_iff input). Qed.
 End Statements.
 
+(* ================= the ABI layer on raw calldata bytes ================= *)
+
+(* The decoder inverts the canonical encoding, for EVERY list of static arguments that fit their types followed by one
+   `bytes` argument of any length (no bound on the metadata): unpack (pack args) = args. *)
+Theorem C20_abi_unpack_inverts_pack : forall ts statics md, Forall2 wt ts statics ->
+  N.of_nat (widths ts + 32) < two256 -> N.of_nat (length md) < two256 ->
+  abi_unpack (ts ++ [TBytes]) (abi_pack statics md) = Some (statics ++ [VBytes md]).
+Proof. exact abi_roundtrip. Qed.
+
+(* A claimAsset / claimMessage call of the Etrog bridge, encoded by its caller, is read back as exactly that claim call:
+   generation, message flag of the selector, global index, both proofs, both exit roots, destination network, metadata. *)
+Theorem C20_abi_decode_encoded_etrog : forall s p0 p1 gi mer rer onet oaddr dnet daddr amount md,
+  (s = sel_asset_etrog \/ s = sel_msg_etrog) ->
+  proof_ok p0 -> proof_ok p1 -> gi < two256 -> mer < two256 -> rer < two256 -> onet <= max_u32 -> oaddr < two160 ->
+  dnet <= max_u32 -> daddr < two160 -> amount < two256 -> N.of_nat (length md) < two256 ->
+  decode_claim bytes b_selector b_unpack (encode_etrog s p0 p1 gi mer rer onet oaddr dnet daddr amount md) =
+  Some (Etrog, s =? sel_msg_etrog, gi,
+        {| d_proof_ler := p0; d_proof_rer := p1; d_mer := mer; d_rer := rer; d_dest_net := dnet; d_metadata := md_of md |}).
+Proof. exact decode_encoded_etrog. Qed.
+
+Theorem C20_abi_decode_encoded_pre : forall s p0 idx mer rer onet oaddr dnet daddr amount md,
+  (s = sel_asset_pre \/ s = sel_msg_pre) ->
+  proof_ok p0 -> idx <= max_u32 -> mer < two256 -> rer < two256 -> onet <= max_u32 -> oaddr < two160 ->
+  dnet <= max_u32 -> daddr < two160 -> amount < two256 -> N.of_nat (length md) < two256 ->
+  decode_claim bytes b_selector b_unpack (encode_pre s p0 idx mer rer onet oaddr dnet daddr amount md) =
+  Some (PreEtrog, s =? sel_msg_pre, idx,
+        {| d_proof_ler := p0; d_proof_rer := []; d_mer := mer; d_rer := rer; d_dest_net := dnet; d_metadata := md_of md |}).
+Proof. exact decode_encoded_pre. Qed.
+
+(* End to end on bytes: when setClaimCalldata succeeds on a call whose input is an encoded Etrog claim, the event's global
+   index is the encoded one and every recorded field is the encoded value (same for the pre-Etrog generation). *)
+Theorem C20_bytes_found_encoded_etrog_records : forall hash2 (root : call bytes) bridge cl c cl'
+    s p0 p1 gi mer rer onet oaddr dnet daddr amount md,
+  set_claim_calldata bytes b_selector b_unpack hash2 (Some root) bridge cl = (ROk c, cl') ->
+  c_inp c = encode_etrog s p0 p1 gi mer rer onet oaddr dnet daddr amount md ->
+  (s = sel_asset_etrog \/ s = sel_msg_etrog) ->
+  proof_ok p0 -> proof_ok p1 -> gi < two256 -> mer < two256 -> rer < two256 -> onet <= max_u32 -> oaddr < two160 ->
+  dnet <= max_u32 -> daddr < two160 -> amount < two256 -> N.of_nat (length md) < two256 ->
+  gi = cl_gi cl /\
+  records hash2 cl cl' (c_from c) Etrog (s =? sel_msg_etrog)
+    {| d_proof_ler := p0; d_proof_rer := p1; d_mer := mer; d_rer := rer; d_dest_net := dnet; d_metadata := md_of md |}.
+Proof. exact found_encoded_etrog_records. Qed.
+
+Theorem C20_bytes_found_encoded_pre_records : forall hash2 (root : call bytes) bridge cl c cl'
+    s p0 idx mer rer onet oaddr dnet daddr amount md,
+  set_claim_calldata bytes b_selector b_unpack hash2 (Some root) bridge cl = (ROk c, cl') ->
+  c_inp c = encode_pre s p0 idx mer rer onet oaddr dnet daddr amount md ->
+  (s = sel_asset_pre \/ s = sel_msg_pre) ->
+  proof_ok p0 -> idx <= max_u32 -> mer < two256 -> rer < two256 -> onet <= max_u32 -> oaddr < two160 ->
+  dnet <= max_u32 -> daddr < two160 -> amount < two256 -> N.of_nat (length md) < two256 ->
+  idx = cl_gi cl /\
+  records hash2 cl cl' (c_from c) PreEtrog (s =? sel_msg_pre)
+    {| d_proof_ler := p0; d_proof_rer := []; d_mer := mer; d_rer := rer; d_dest_net := dnet; d_metadata := md_of md |}.
+Proof. exact found_encoded_pre_records. Qed.
+
+(* non-vacuity of the byte-level theorems: a real encoding (metadata of 3 bytes, proofs 1..32 and 101..132) satisfies
+   the hypotheses, decodes, and the rejections of go-ethereum are reproduced (truncated head; uint32 slot = 2^32) *)
+Definition bx_p0 : list N := map N.of_nat (seq 1 32).
+Definition bx_p1 : list N := map N.of_nat (seq 101 32).
+Definition bx_call : bytes := encode_etrog sel_msg_etrog bx_p0 bx_p1 (2 ^ 64 + 7) 0xaa 0xbb 5 0xa0a 6 0xb0b 150 [1; 2; 3].
+Example C20_abi_ex_decodes :
+  proof_ok bx_p0 /\ proof_ok bx_p1 /\ length bx_call = (4 + 73 * 32 + 32 + 32)%nat /\
+  decode_claim bytes b_selector b_unpack bx_call =
+    Some (Etrog, true, 2 ^ 64 + 7, {| d_proof_ler := bx_p0; d_proof_rer := bx_p1; d_mer := 0xaa; d_rer := 0xbb; d_dest_net := 6; d_metadata := (3%nat, 0x010203) |}).
+Proof.
+  split; [split; [reflexivity | repeat constructor]|]. split; [split; [reflexivity | repeat constructor]|].
+  split; vm_compute; reflexivity.
+Qed.
+Example C20_abi_ex_rejects :
+  b_unpack Etrog (firstn (4 + 73 * 32 - 1) bx_call) = None /\
+  b_unpack Etrog (encode_etrog sel_msg_etrog bx_p0 bx_p1 7 0xaa 0xbb 5 0xa0a (2 ^ 32) 0xb0b 150 [1; 2; 3]) = None /\
+  b_unpack PreEtrog bx_call <> b_unpack Etrog bx_call.
+Proof. repeat split; vm_compute; try reflexivity. discriminate. Qed.
+
 (* ---- non-vacuity: a concrete tree with a reverted frame hiding a matching call, two live matching calls of both
    generations, a bridge call with another index that encloses a matching one, a non-bridge frame ---- *)
 Definition ex_h2 (a b : N) : N := a * 1000 + b.
@@ -175,3 +269,8 @@ Print Assumptions C20_details_are_of_found_call.
 Print Assumptions C20_found_is_first_in_visit_order.
 Print Assumptions C20_live_calls_is_live.
 Print Assumptions C20_all_calls_is_subcall.
+Print Assumptions C20_abi_unpack_inverts_pack.
+Print Assumptions C20_abi_decode_encoded_etrog.
+Print Assumptions C20_abi_decode_encoded_pre.
+Print Assumptions C20_bytes_found_encoded_etrog_records.
+Print Assumptions C20_bytes_found_encoded_pre_records.
